@@ -30,7 +30,8 @@ impl SimFile {
     pub fn new(seed: u64) -> SimFile {
         let mut rng = Prng::new(seed ^ 0xF11E);
         // swarm: per file pick how hostile the medium is (incl. fully benign)
-        let mode = rng.below(4);
+        // seed 0 = benign medium (used by minimisation)
+        let mode = if seed == 0 { 0 } else { rng.below(4) };
         let (p_intr, p_short) = match mode {
             0 => (0.0, 0.0),
             1 => (0.05, 0.3),
